@@ -1,9 +1,10 @@
 #!/usr/bin/env python3
 # writes /verif/seeded/INDEX.md from the stored changes and a regression log (label prop OK|ALARM ... lines from tools/par_run.sh)
 import json,glob,os,sys,re
-log=sys.argv[1] if len(sys.argv)>1 else '/tmp/allmut2.log'
+logs=sys.argv[1:] or ['/tmp/allmut2.log']
 res={}
-if os.path.exists(log):
+for log in logs:
+  if os.path.exists(log):
     for l in open(log,errors='replace'):
         m=re.match(r'(C\d\d-[A-Z]) (C\d\d) (OK|ALARM)( replayed| no-input)?(.*)',l)
         if m:
